@@ -13,7 +13,7 @@ namespace Amqp.TxnRoute
 structure TFrame where
   handle : Nat
   txn : Option Nat        -- the transfer's state is a transactional state naming this transaction
-  tag : Bool              -- the transfer carries a delivery-tag
+  tag : Option Nat        -- the transfer's delivery-tag, if it carries one
   more : Bool
   aborted : Bool
   key : Nat
@@ -24,10 +24,11 @@ inductive Route where
   | withheld (id : Nat)   -- kept as work of transaction `id`
 deriving Repr, DecidableEq
 
-/-- `incomplete_posts` -/
-abbrev Table := Nat → Option Nat
+/-- `incomplete_posts`: the transaction of the post under way on a link, and the delivery-tag its first
+    transfer named -/
+abbrev Table := Nat → Option (Nat × Option Nat)
 
-def Table.set (t : Table) (h : Nat) (v : Option Nat) : Table := fun k => if k = h then v else t k
+def Table.set (t : Table) (h : Nat) (v : Option (Nat × Option Nat)) : Table := fun k => if k = h then v else t k
 
 /-- source facts: the arms of the decision in the order the model takes them, the table touched only under the
     condition `more && !aborted` / its `else`, no other test of the abort flag, and the frame kept by a push -/
@@ -36,30 +37,36 @@ def routeShape : Bool :=
    decide (idx_DeliveryState_____TransactionalState___state_________state___txn_id___clone____ <
            idx_incomplete_posts___get_____transfer___handle__) &&
    decide (idx_incomplete_posts___get_____transfer___handle__ <
-           idx_Some___txn_id___if_transfer___delivery_tag___is_none_________txn_id___clone____) &&
-   decide (idx_Some___txn_id___if_transfer___delivery_tag___is_none_________txn_id___clone____ <
+           idx_Some_____txn_id___tag_____if_transfer___delivery_tag___is_none_________transfer___delivery_tag_______tag____) &&
+   decide (idx_Some_____txn_id___tag_____if_transfer___delivery_tag___is_none_________transfer___delivery_tag_______tag____ <
            idx_return_self___session___on_incoming_transfer___transfer___payload__) &&
    decide (idx_return_self___session___on_incoming_transfer___transfer___payload__ <
+           idx_let_under_way___self___txn_manager___incomplete_posts___remove_____transfer___handle__) &&
+   decide (idx_let_under_way___self___txn_manager___incomplete_posts___remove_____transfer___handle__ <
            idx_if_transfer___more_______transfer___aborted__) &&
-   decide (idx_if_transfer___more_______transfer___aborted__ <
-           idx_incomplete_posts___insert___transfer___handle___clone_______txn_id___clone______) &&
-   decide (idx_incomplete_posts___insert___transfer___handle___clone_______txn_id___clone______ < idx___else__) &&
-   decide (idx___else__ < idx_incomplete_posts___remove_____transfer___handle__) &&
-   decide (idx_incomplete_posts___remove_____transfer___handle__ <
+   decide (idx_if_transfer___more_______transfer___aborted__ < idx___Some___tag_____________Some___tag___clone______) &&
+   decide (idx___Some___tag_____________Some___tag___clone______ < idx___None___Some_________tag___________tag) &&
+   decide (idx___None___Some_________tag___________tag < idx___None___None_______None) &&
+   decide (idx___None___None_______None <
+           idx_incomplete_posts___insert___transfer___handle___clone_________txn_id___clone_______tag____) &&
+   decide (idx_incomplete_posts___insert___transfer___handle___clone_________txn_id___clone_______tag____ <
            idx_txn___on_incoming_post___txn_id___transfer___payload__) &&
    decide (idx_txn___on_incoming_post___txn_id___transfer___payload__ < 1000) &&
-   decide (idx_if_transfer___aborted = 1000) && decide (idx_if_transfer___more__ = 1000)) &&
+   decide (idx_if_transfer___aborted = 1000) && decide (idx_if_transfer___more__ = 1000) &&
+   decide (idx___else__ = 1000)) &&
   (open Amqp.Gen.TxnK.post_order in
    decide (idx_self___frames___push___frame__ < 1000) && decide (idx_insert = 1000) && decide (idx_drain = 1000) &&
    decide (idx_truncate = 1000) && decide (idx_remove = 1000) && decide (idx_clear = 1000) &&
    decide (idx_if_transfer___aborted = 1000))
 
-/-- the transaction a transfer is withheld under, if any -/
+/-- the transaction a transfer is withheld under, if any: the one its state names; or, without a
+    transactional state, the one of the post under way on its link if it leaves the delivery-tag out or
+    repeats that post's -/
 def decide? (t : Table) (f : TFrame) : Option Nat :=
   match f.txn with
   | some id => some id
   | none => match t f.handle with
-    | some id => if !f.tag then some id else none
+    | some (id, tg) => if f.tag = none ∨ f.tag = tg then some id else none
     | none => none
 
 /-- `TxnSession::on_incoming_transfer` -/
@@ -70,7 +77,12 @@ def route (t : Table) (f : TFrame) : Table × Route :=
     -- the condition under which the link counts as in the middle of a post (with the shape of the source:
     -- `more && !aborted`; any other shape: `more` alone, which is what the code had)
     let under_way := if routeShape then f.more && !f.aborted else f.more
-    (t.set f.handle (if under_way then some id else none), .withheld id)
+    -- the delivery-tag kept with the entry: this transfer's, else the one kept so far
+    let tag := match f.tag, t f.handle with
+      | some x, _ => some x
+      | none, some (_, tg) => tg
+      | none, none => none
+    (t.set f.handle (if under_way then some (id, tag) else none), .withheld id)
 
 /-- the session: the table, and per transaction the frames withheld so far, oldest first -/
 structure St where
